@@ -1,6 +1,5 @@
-(* C11 - the concrete writes of WriteBlock / WriteBlockWithState: their effect on
-   the fields, their shape, and the preservation of the node invariant J under
-   any write budget. *)
+(* C11 - the batches of WriteBlock / WriteBlockWithState: their effect on the
+   fields and their shape. *)
 From VF.C11 Require Import Model ProofsA ProofsB ProofsC ProofsD.
 From Coq Require Import Lia ZifyBool ZifyN ZifyNat.
 Local Open Scope N_scope.
@@ -19,41 +18,20 @@ Proof. intros a b c [A1 [A2 [A3 A4]]] [B1 [B2 [B3 B4]]]; repeat split; congruenc
 Lemma applyl_cons : forall w ws d, applyl (w :: ws) d = applyl ws (apply_write w d).
 Proof. reflexivity. Qed.
 
-Lemma look_ws_fields : forall txs h d,
-  let d' := applyl (map snd (look_ws txs h)) d in
+Lemma look_batch_fields : forall txs h d,
+  let d' := apply_write (map (fun tx => WLook tx h) txs) d in
   sameS d d' /\ d_canon d' = d_canon d /\ d_headB d' = d_headB d /\
   d_look d' = fold_left (fun m tx => aset tx h m) txs (d_look d).
 Proof.
-  induction txs as [|a txs IH]; intros h d; cbn [look_ws map fold_left snd].
+  induction txs as [|a txs IH]; intros h d; cbn [map fold_left].
   - simpl. repeat split; auto.
-  - rewrite applyl_cons. fold (look_ws txs h). destruct (IH h (apply_write [WLook a h] d)) as [S [C [H L]]].
-    cbv zeta in *. split; [|split; [|split]].
+  - rewrite apply_write_cons. destruct (IH h (apply_ew (WLook a h) d)) as [S [C [H L]]]. cbv zeta in *.
+    split; [|split; [|split]].
     + eapply sameS_trans; [|exact S]. repeat split; auto.
     + rewrite C; auto.
     + rewrite H; auto.
     + rewrite L; auto.
 Qed.
-
-Lemma reorg_ws_fields : forall l d,
-  let d' := applyl (map snd (reorg_ws l)) d in
-  sameS d d' /\ d_canon d' = canon_fold l (d_canon d) /\ d_look d' = look_fold l (d_look d).
-Proof.
-  induction l as [|x l IH]; intros d.
-  - simpl. repeat split; auto.
-  - cbn [reorg_ws flat_map]. rewrite map_app, applyl_app. rewrite map_app, applyl_app.
-    set (d1 := applyl (map snd (head_ws true x)) d).
-    destruct (look_ws_fields (btxs x) (bid x) d1) as [S1 [C1 [H1 L1]]]. cbv zeta in *.
-    set (d2 := applyl (map snd (look_ws (btxs x) (bid x))) d1) in *.
-    destruct (IH d2) as [S2 [C2 L2]]. cbv zeta in *.
-    fold (reorg_ws l).
-    split; [|split].
-    + eapply sameS_trans; [|exact S2]. eapply sameS_trans; [|exact S1]. repeat split; auto.
-    + rewrite C2, C1. reflexivity.
-    + rewrite L2, L1. reflexivity.
-Qed.
-
-Definition window_ws (ncl : list block) (diff : list N) (rc : write) (b : block) : list (bool * write) :=
-  reorg_ws ncl ++ [(true, map WUnlook diff); (true, rc ++ map (fun tx => WLook tx (bid b)) (btxs b))] ++ head_ws false b.
 
 Lemma unlook_fields : forall diff d,
   let d' := apply_write (map WUnlook diff) d in
@@ -70,59 +48,83 @@ Proof.
     + rewrite L; auto.
 Qed.
 
-Lemma look_batch_fields : forall txs h d,
-  let d' := apply_write (map (fun tx => WLook tx h) txs) d in
-  sameS d d' /\ d_canon d' = d_canon d /\ d_headB d' = d_headB d /\
-  d_look d' = fold_left (fun m tx => aset tx h m) txs (d_look d).
+Lemma stage_block_fields : forall x d,
+  let d' := apply_write (stage_block x) d in
+  sameS d d' /\ d_canon d' = aset (bnum x) (bid x) (d_canon d) /\ d_look d' = look_block x (d_look d).
 Proof.
-  induction txs as [|a txs IH]; intros h d; cbn [map fold_left].
-  - simpl. repeat split; auto.
-  - rewrite apply_write_cons. destruct (IH h (apply_ew (WLook a h) d)) as [S [C [H L]]]. cbv zeta in *.
-    split; [|split; [|split]].
-    + eapply sameS_trans; [|exact S]. repeat split; auto.
-    + rewrite C; auto.
-    + rewrite H; auto.
-    + rewrite L; auto.
+  intros x d. unfold stage_block. rewrite apply_write_app.
+  set (d1 := apply_write (stage_head x) d).
+  destruct (look_batch_fields (btxs x) (bid x) d1) as [S [C [H L]]]. cbv zeta in *.
+  split; [|split].
+  - eapply sameS_trans; [|exact S]. repeat split; auto.
+  - rewrite C. reflexivity.
+  - rewrite L. reflexivity.
 Qed.
+
+Lemma stage_blocks_fields : forall l d,
+  let d' := applyl (map stage_block l) d in
+  sameS d d' /\ d_canon d' = canon_fold l (d_canon d) /\ d_look d' = look_fold l (d_look d).
+Proof.
+  induction l as [|x l IH]; intros d.
+  - simpl. repeat split; auto.
+  - cbn [map]. rewrite applyl_cons.
+    destruct (stage_block_fields x d) as [S1 [C1 L1]]. cbv zeta in *.
+    set (d1 := apply_write (stage_block x) d) in *.
+    destruct (IH d1) as [S2 [C2 L2]]. cbv zeta in *.
+    split; [|split].
+    + eapply sameS_trans; eauto.
+    + rewrite C2, C1. reflexivity.
+    + rewrite L2, L1. reflexivity.
+Qed.
+
+(* the head-switch batch as a list of pieces *)
+Definition switch_l (ncl : list block) (diff : list N) (rc : write) (b : block) : list write :=
+  [rc] ++ map stage_block ncl ++ [map WUnlook diff; map (fun tx => WLook tx (bid b)) (btxs b); stage_head b].
 
 Definition rc_ok (rc : write) : Prop := rc = [] \/ exists h, rc = [WRcpt h].
 
-Lemma window_fields : forall ncl diff rc b d, rc_ok rc ->
-  let d' := applyl (map snd (window_ws ncl diff rc b)) d in
+Lemma switch_fields : forall ncl diff rc b d, rc_ok rc ->
+  let d' := applyl (switch_l ncl diff rc b) d in
   sameS d d' /\ d_headB d' = bid b /\
   d_canon d' = aset (bnum b) (bid b) (canon_fold ncl (d_canon d)) /\
   d_look d' = fold_left (fun m tx => aset tx (bid b) m) (btxs b)
                 (fold_left (fun m x => aremove x m) diff (look_fold ncl (d_look d))).
 Proof.
-  intros ncl diff rc b d Hrc. unfold window_ws. rewrite map_app, applyl_app.
-  destruct (reorg_ws_fields ncl d) as [S1 [C1 L1]]. cbv zeta in *.
-  set (d1 := applyl (map snd (reorg_ws ncl)) d) in *.
-  cbn [map snd app]. rewrite !applyl_cons.
+  intros ncl diff rc b d Hrc. unfold switch_l. cbn [app]. rewrite applyl_cons, applyl_app.
+  set (d0 := apply_write rc d).
+  assert (R : sameS d d0 /\ d_canon d0 = d_canon d /\ d_look d0 = d_look d).
+  { unfold d0. destruct Hrc as [->|[h ->]]; simpl; repeat split; auto. }
+  destruct R as [S0 [C0 L0]].
+  destruct (stage_blocks_fields ncl d0) as [S1 [C1 L1]]. cbv zeta in *.
+  set (d1 := applyl (map stage_block ncl) d0) in *.
+  rewrite !applyl_cons.
   destruct (unlook_fields diff d1) as [S2 [C2 [H2 L2]]]. cbv zeta in *.
   set (d2 := apply_write (map WUnlook diff) d1) in *.
-  rewrite apply_write_app.
-  set (d3 := apply_write rc d2).
-  assert (R : sameS d2 d3 /\ d_canon d3 = d_canon d2 /\ d_headB d3 = d_headB d2 /\ d_look d3 = d_look d2).
-  { unfold d3. destruct Hrc as [->|[h ->]]; simpl; repeat split; auto. }
-  destruct R as [S3 [C3 [H3 L3]]].
-  destruct (look_batch_fields (btxs b) (bid b) d3) as [S4 [C4 [H4 L4]]]. cbv zeta in *.
-  set (d4 := apply_write (map (fun tx => WLook tx (bid b)) (btxs b)) d3) in *.
+  destruct (look_batch_fields (btxs b) (bid b) d2) as [S3 [C3 [H3 L3]]]. cbv zeta in *.
+  set (d3 := apply_write (map (fun tx => WLook tx (bid b)) (btxs b)) d2) in *.
   simpl. split; [|split; [|split]].
   - eapply sameS_trans; [|repeat split; reflexivity].
-    eapply sameS_trans; [exact S1|]. eapply sameS_trans; [exact S2|]. eapply sameS_trans; [exact S3|exact S4].
+    eapply sameS_trans; [exact S0|]. eapply sameS_trans; [exact S1|]. eapply sameS_trans; [exact S2|exact S3].
   - reflexivity.
-  - rewrite C4, C3, C2, C1. reflexivity.
-  - rewrite L4, L3, L2, L1. reflexivity.
+  - rewrite C3, C2, C1, C0. reflexivity.
+  - rewrite L3, L2, L1, L0. reflexivity.
 Qed.
 
-(* ---- shape of the window ---------------------------------------------------------------- *)
+(* the batch WriteBlockWithState writes is the concatenation of these pieces *)
+Lemma switch_batch_concat : forall ncl diff rc b,
+  rc ++ (flat_map stage_block ncl ++ map WUnlook diff) ++ map (fun tx => WLook tx (bid b)) (btxs b) ++ stage_head b
+  = concat (switch_l ncl diff rc b).
+Proof.
+  intros. unfold switch_l. rewrite concat_app. cbn [concat]. rewrite app_nil_r.
+  rewrite concat_app. cbn [concat]. rewrite app_nil_r. rewrite <- flat_map_concat_map.
+  rewrite <- !app_assoc. reflexivity.
+Qed.
 
-(* every write of a window is "soft", or sets a canonical entry / the head-block
-   marker for one of the listed blocks *)
+(* ---- shape of the batch ------------------------------------------------------------------ *)
+
 Definition win_write_ok (bs : list block) (w : write) : Prop :=
   forallb soft_ew w = true \/
-  (exists x, In x bs /\ w = [WCanon (bnum x) (bid x)]) \/
-  (exists x, In x bs /\ w = [WHeadB (bid x)]).
+  (exists x, In x bs /\ w = stage_head x).
 
 Lemma forallb_soft_look : forall txs h, forallb soft_ew (map (fun tx => WLook tx h) txs) = true.
 Proof. induction txs; simpl; auto. Qed.
@@ -130,158 +132,30 @@ Proof. induction txs; simpl; auto. Qed.
 Lemma forallb_soft_unlook : forall diff, forallb soft_ew (map WUnlook diff) = true.
 Proof. induction diff; simpl; auto. Qed.
 
-Lemma reorg_ws_shape : forall l bs, incl l bs -> forall w, In w (map snd (reorg_ws l)) -> win_write_ok bs w.
+(* pieces, refined: stage_block x = stage_head x ++ lookups *)
+Definition switch_l2 (ncl : list block) (diff : list N) (rc : write) (b : block) : list write :=
+  [rc] ++ flat_map (fun x => [stage_head x; map (fun tx => WLook tx (bid x)) (btxs x)]) ncl
+       ++ [map WUnlook diff; map (fun tx => WLook tx (bid b)) (btxs b); stage_head b].
+
+Lemma switch_l2_concat : forall ncl diff rc b, concat (switch_l2 ncl diff rc b) = concat (switch_l ncl diff rc b).
 Proof.
-  induction l as [|x l IH]; intros bs Hi w Hw; simpl in Hw; [contradiction|].
-  assert (Hx : In x bs) by (apply Hi; left; auto).
-  destruct Hw as [<-|[<-|[<-|Hw]]].
-  - left; reflexivity.
-  - right; left; exists x; auto.
-  - right; right; exists x; auto.
-  - rewrite map_app in Hw. apply in_app_or in Hw. destruct Hw as [Hw|Hw].
-    + unfold look_ws in Hw. rewrite map_map in Hw. apply in_map_iff in Hw. destruct Hw as [tx [<- _]]. left; reflexivity.
-    + apply IH; auto. intros y Hy; apply Hi; right; auto.
+  intros. unfold switch_l2, switch_l. rewrite !concat_app. f_equal. f_equal.
+  induction ncl as [|x l IH]; auto. cbn [flat_map map]. rewrite concat_app. cbn [concat]. rewrite IH.
+  unfold stage_block. rewrite app_nil_r, <- app_assoc. reflexivity.
 Qed.
 
-Lemma window_ws_shape : forall ncl diff rc b bs, rc_ok rc -> incl ncl bs -> In b bs ->
-  forall w, In w (map snd (window_ws ncl diff rc b)) -> win_write_ok bs w.
+Lemma switch_l2_shape : forall ncl diff rc b bs, rc_ok rc -> incl ncl bs -> In b bs ->
+  forall w, In w (switch_l2 ncl diff rc b) -> win_write_ok bs w.
 Proof.
-  intros ncl diff rc b bs Hrc Hi Hb w Hw. unfold window_ws in Hw. rewrite map_app in Hw.
-  apply in_app_or in Hw. destruct Hw as [Hw|Hw]; [eapply reorg_ws_shape; eauto|].
-  simpl in Hw. destruct Hw as [<-|[<-|[<-|[<-|[<-|[]]]]]].
-  - left. apply forallb_soft_unlook.
-  - left. rewrite forallb_app, forallb_soft_look. destruct Hrc as [->|[h ->]]; reflexivity.
-  - left; reflexivity.
-  - right; left; exists b; auto.
-  - right; right; exists b; auto.
+  intros ncl diff rc b bs Hrc Hi Hb w Hw. unfold switch_l2 in Hw.
+  apply in_app_or in Hw. destruct Hw as [[<-|[]]|Hw].
+  - left. destruct Hrc as [->|[h ->]]; reflexivity.
+  - apply in_app_or in Hw. destruct Hw as [Hw|Hw].
+    + apply in_flat_map in Hw. destruct Hw as [x [Hx [<-|[<-|[]]]]].
+      * right. exists x. split; auto.
+      * left. apply forallb_soft_look.
+    + simpl in Hw. destruct Hw as [<-|[<-|[<-|[]]]].
+      * left. apply forallb_soft_unlook.
+      * left. apply forallb_soft_look.
+      * right. exists b; auto.
 Qed.
-
-Lemma reorg_ws_flags : forall l mw, In mw (reorg_ws l) -> fst mw = true.
-Proof.
-  induction l as [|x l IH]; intros mw H; simpl in H; [contradiction|].
-  destruct H as [<-|[<-|[<-|H]]]; auto.
-  apply in_app_or in H. destruct H as [H|H]; auto.
-  unfold look_ws in H. apply in_map_iff in H. destruct H as [tx [<- _]]; auto.
-Qed.
-
-(* the only write of a window whose completion leaves the node outside the switch
-   is the last one *)
-Lemma window_ws_last : forall ncl diff rc b pre w post,
-  window_ws ncl diff rc b = pre ++ (false, w) :: post -> post = [].
-Proof.
-  intros ncl diff rc b pre w post E.
-  assert (Hall : forall mw, In mw (removelast (window_ws ncl diff rc b)) -> fst mw = true).
-  { unfold window_ws. intros mw H.
-    replace (reorg_ws ncl ++ [(true, map WUnlook diff); (true, rc ++ map (fun tx => WLook tx (bid b)) (btxs b))] ++ head_ws false b)
-      with ((reorg_ws ncl ++ [(true, map WUnlook diff); (true, rc ++ map (fun tx => WLook tx (bid b)) (btxs b));
-                              (true, [WHeadH (bid b)]); (true, [WCanon (bnum b) (bid b)])]) ++ [(false, [WHeadB (bid b)])]) in H
-      by (rewrite <- app_assoc; reflexivity).
-    rewrite removelast_last in H. apply in_app_or in H. destruct H as [H|H].
-    - eapply reorg_ws_flags; eauto.
-    - simpl in H. destruct H as [<-|[<-|[<-|[<-|[]]]]]; auto. }
-  destruct post as [|p post]; auto. exfalso.
-  rewrite E in Hall.
-  assert (In (false, w) (removelast (pre ++ (false, w) :: p :: post))).
-  { rewrite removelast_app; [|discriminate]. apply in_or_app. right.
-    simpl. left; auto. }
-  apply Hall in H. discriminate.
-Qed.
-
-Section Prim.
-Variable t : tree.
-Variable g : block.
-Hypothesis Hg : info t (bid g) = Some g.
-Hypothesis Hg0 : bnum g = 0.
-
-Notation DInv := (DInv t g).
-Notation Qd := (Qd t).
-Notation J := (J t g).
-
-Lemma J_same : forall s s', same s s' -> J s -> (alive s' -> cur s' = cur s) -> J s'.
-Proof.
-  intros s s' [A B C] [HD [HA HX]] Hc. unfold ProofsB.J, alive in *. rewrite <- A, <- B, <- C.
-  split; auto. split; auto.
-  intros Ha. destruct (HA Ha) as [H1 [H2 H3]]. split; auto. split; auto.
-  rewrite <- H3. apply Hc. rewrite <- B; auto.
-Qed.
-
-(* ---- WriteBlock --------------------------------------------------------------------------- *)
-
-Definition block_ws (b : block) : list (bool * write) :=
-  [(false, [WBody (bid b)]); (false, [WHNum (bid b)]); (false, [WHdr (bid b)])].
-
-Lemma write_block_wrs : forall b s, write_block b s = wrs (block_ws b) s.
-Proof. reflexivity. Qed.
-
-(* what a caller may keep across added blocks/states *)
-Definition ext (d d' : disk) : Prop :=
-  incl (d_hdr d) (d_hdr d') /\ incl (d_body d) (d_body d') /\ incl (d_state d) (d_state d') /\
-  d_canon d' = d_canon d /\ d_look d' = d_look d /\ d_headB d' = d_headB d.
-
-Lemma ext_refl : forall d, ext d d.
-Proof. intros; repeat split; auto using incl_refl. Qed.
-
-Lemma ext_trans : forall a b c, ext a b -> ext b c -> ext a c.
-Proof.
-  intros a b c [A1 [A2 [A3 [A4 [A5 A6]]]]] [B1 [B2 [B3 [B4 [B5 B6]]]]].
-  repeat split; try congruence; eapply incl_tran; eauto.
-Qed.
-
-Lemma ext_add_ew : forall e d, add_ew e = true -> ext d (apply_ew e d).
-Proof.
-  intros [] d H; simpl in H; try discriminate; repeat split; simpl; auto using incl_refl;
-    intros x Hx; apply In_addN; auto.
-Qed.
-
-Lemma J_write_block : forall b s, J s ->
-  info t (bid b) = Some b -> goodish b -> bnum b <> 0 -> In (bpar b) (d_hdr (disk_of s)) ->
-  (exists p, info t (bpar b) = Some p /\ bnum p + 1 = bnum b) ->
-  J (write_block b s) /\ ext (disk_of s) (disk_of (write_block b s)) /\
-  (alive (write_block b s) -> In (bid b) (d_hdr (disk_of (write_block b s)))) /\
-  cur (write_block b s) = cur s.
-Proof.
-  intros b s [HD [HA HX]] Hinfo Hgd Hn0 Hpar Hp.
-  rewrite write_block_wrs.
-  set (d0 := disk_of s).
-  (* along every prefix: DInv, extension of d0, and Qd if it held *)
-  assert (Hpre : forall pre w post, map snd (block_ws b) = pre ++ w :: post ->
-            (pre = [] /\ w = [WBody (bid b)]) \/ (pre = [[WBody (bid b)]] /\ w = [WHNum (bid b)]) \/
-            (pre = [[WBody (bid b)]; [WHNum (bid b)]] /\ w = [WHdr (bid b)])).
-  { intros pre w post E. simpl in E.
-    destruct pre as [|p1 pre]; simpl in E; [inversion E; auto|].
-    destruct pre as [|p2 pre]; simpl in E; [inversion E; auto|].
-    destruct pre as [|p3 pre]; simpl in E; [inversion E; auto 6|].
-    inversion E. destruct pre; discriminate. }
-  assert (HP : DInv (disk_of (wrs (block_ws b) s)) /\ ext d0 (disk_of (wrs (block_ws b) s))).
-  { apply (wrs_inv (fun d => DInv d /\ ext d0 d)).
-    - split; auto. apply ext_refl.
-    - intros pre w post E [PD PE]. destruct (Hpre pre w post E) as [[-> ->]|[[-> ->]|[-> ->]]];
-        cbn [applyl apply_write fold_left] in *.
-      + split; [apply DInv_body; auto|]. eapply ext_trans; [exact PE|]. apply (ext_add_ew (WBody (bid b))); auto.
-      + split; [apply DInv_hnum; auto|]. eapply ext_trans; [exact PE|]. apply (ext_add_ew (WHNum (bid b))); auto.
-      + split; [|eapply ext_trans; [exact PE|]; apply (ext_add_ew (WHdr (bid b))); auto].
-        destruct PE as [PE1 _].
-        apply DInv_hdr; auto; simpl.
-        * apply In_addN; auto.
-        * apply In_addN; auto. }
-  destruct HP as [HPD HPE]. split; [|split; [exact HPE|split]].
-  - unfold ProofsB.J. split; auto. split.
-    + intros Ha. pose proof (wrs_alive_back _ _ Ha) as Ha0. destruct (HA Ha0) as [Hb0 [HQ Hc]].
-      assert (Ed : disk_of (wrs (block_ws b) s) =
-                   apply_ew (WHdr (bid b)) (apply_ew (WHNum (bid b)) (apply_ew (WBody (bid b)) d0))).
-      { rewrite wrs_alive_disk; auto. }
-      rewrite Ed, wrs_cur. split; [|split].
-      * intros h Hh. simpl in *. apply In_addN. apply In_addN in Hh. destruct Hh as [->|Hh]; auto.
-      * apply (Qd_add t (WHdr (bid b))); auto. apply (Qd_add t (WHNum (bid b))); auto. apply (Qd_add t (WBody (bid b))); auto.
-      * simpl. exact Hc.
-    + intros Hd Hm. destruct (alive_dec s) as [Ha0|Hd0].
-      * destruct (HA Ha0) as [Hb0 [HQ Hc]].
-        apply (wrs_inv (fun d => Qd d)); auto.
-        intros pre w post E PQ. destruct (Hpre pre w post E) as [[-> ->]|[[-> ->]|[-> ->]]];
-          cbn [applyl apply_write fold_left] in *; apply (Qd_add t); auto.
-      * rewrite wrs_dead in *; auto.
-  - intros Ha. rewrite wrs_alive_disk; auto. simpl. apply In_addN; auto.
-  - apply wrs_cur.
-Qed.
-
-End Prim.
